@@ -491,7 +491,7 @@ Proof.
   apply done_res_some in Ed. subst p'.
   assert (Hx : x = RNil /\ e0 = e /\ k_st s' = st').
   { unfold next_job in Ew. destruct (k_gone (g w)); destruct (k_queue (g w)); inversion Ew; subst; auto. }
-  destruct Hx as (-> & -> & Hst). cbn [safe] in Hs1. destruct Hs1 as (_ & _ & _ & Hnil). destruct (Hnil eq_refl) as [A B].
+  destruct Hx as (-> & -> & Hst). cbn [safe] in Hs1. destruct Hs1 as (_ & _ & _ & Hnil & _). destruct (Hnil eq_refl) as [A B].
   unfold mcache_at, mstore_at. rewrite Hk, (Hc r eq_refl), updm_same, Hst. split; [exact A | exact B].
 Qed.
 
